@@ -27,13 +27,15 @@ demo = []
 for root, _, fs in os.walk(os.path.join(d, "demo")):
     for f in fs:
         demo.append(os.path.relpath(os.path.join(root, f), d))
+inwt = any("(run with VERIF_REPO=" in open(os.path.join(d, f)).read() for f in os.listdir(d) if f.startswith("check_") and f.endswith(".log"))
 meta = {
     "round": int(os.environ.get("SEED_ROUND", "1")),
     "seed": sid, "property": prop, "summary": summary, "needs_to_manifest": needs,
     "patch": "patch.diff", "demonstration": sorted(demo),
     "confirmed": ["go build ./... with the change", "demonstration fails with the change, passes without it",
                   "go test ./... (existing suite, unedited) passes with the change",
-                  f"git -C /repo apply patch.diff; ./check {prop} <tier> -noevidence; git -C /repo checkout -- ."],
+                  (f"VERIF_REPO=<scratch worktree holding /repo's HEAD plus patch.diff> ./check {prop} <tier> -noevidence (/repo itself was being read by a thorough sweep)"
+                   if inwt else f"git -C /repo apply patch.diff; ./check {prop} <tier> -noevidence; git -C /repo checkout -- .")],
     "check_result": res,
 }
 if note:
